@@ -17,7 +17,9 @@ OPTIONAL_BUILDS = ["asan"]
 BUDGET_S = {"quick": 170, "thorough": 3600}
 RULE = ("Per registered suffix: token soups over that language's comment delimiters, tag fragments, quotes, brackets, "
         "line terminators and unusual Unicode; byte-level mutations (re-validated as UTF-8) of generated well-formed "
-        "files and of the repository's own sources; 64 KB repetitions; git-produced diffs between two such versions. "
+        "files and of the repository's own sources; 64 KB repetitions; git-produced diffs between two such versions, also under quoted / "
+        "non-UTF-8 file names; well-formed files whose blocks carry every rule attribute with ordinary and malformed values over odd "
+        "content lines (NaN, infinities, overflowing numbers, Unicode digits, 5000-character lines). "
         "Each input is one process in scan, list or diff mode under the release, debug-assertion and ASan builds "
         "(RLIMIT_CPU decides hangs). A case is one (input, mode, build); non-trivial = the input contains a comment "
         "delimiter of its language or a '<'; distinct = hash of (suffix, bytes, mode, build).")
@@ -48,6 +50,11 @@ def plan(tier, seed):
         jobs.append({"k": "mut", "suffix": suffix, "seed": seed, "n": 25 if q else 800, "flavour": "asan", "part": 2})
         jobs.append({"k": "diff", "suffix": suffix, "seed": seed, "n": 25 if q else 400, "flavour": "rel", "part": 3})
         jobs.append({"k": "big", "suffix": suffix, "seed": seed, "n": 3 if q else 30, "flavour": "rel", "part": 4})
+    # well-formed files whose blocks carry every rule attribute with ordinary, odd and malformed values over odd content lines
+    # (NaN / infinities / overflowing numbers / Unicode digits / very long lines): validators must report or refuse, never crash
+    for suffix in ("py", "js", "md"):
+        jobs.append({"k": "rules", "suffix": suffix, "seed": seed, "n": 260 if q else 6000, "flavour": "rel", "part": 6})
+        jobs.append({"k": "rules", "suffix": suffix, "seed": seed, "n": 90 if q else 1500, "flavour": "dbg", "part": 7})
     if not q:
         # split the big jobs so that 16 workers stay busy
         split = []
@@ -225,6 +232,58 @@ def _seed_files(suffix, seed):
     return out
 
 
+RULE_VALUES = {
+    "keep-sorted": ["asc", "desc", "", None, "ASC", "up"],
+    "keep-sorted-format": ["numeric", "numeric", "lexicographic", "NUMERIC", "x", ""],
+    "keep-sorted-pattern": [r"(?P<value>\S+)", r"\d*", "(", r"(?P<value>\d+)?", "[0-9]+$"],
+    "keep-unique": [None, "", r"(?P<value>\w+)", "(", r"\S*"],
+    "line-pattern": [r"\d+", "(", "", r"^\S+$", "[a-", r"(a|b)*c"],
+    "line-count": ["<3", ">=0", "==2", "<18446744073709551616", "<<3", "", "> 1", "<-1", "==9223372036854775808"],
+    "affects": [":x", "s.py:x", "nope", "", ":", "a:b:c", ":x,:y"],
+    "severity": ["warning", "info", "hint", "ERROR", "bogus", ""],
+    "check-lua-pattern": [r"(?P<value>\d+)", "(", ""],
+    "check-ai": ["must be fine", ""],
+    "check-ai-pattern": [r"\w+", "("],
+    "name": ["x", "y", "é", ""],
+}
+RULE_LINES = ["nan", "NaN", "-nan", "inf", "-inf", "infinity", "1e999", "-1e999", "-0", "0", "0x10", "1_000", "\uff19", "\u0661\u0662", "1e-400", "", " ",
+              "a", "b", "\u00e9", "9" * 400, "+5", ".5", "5.", "1e", "--1", "1", "2", "10", "2.0", "1e1", "id: nan", "x" * 5000, "\u3000", "a\tb", "(", "[a-", "\\"]
+
+
+RULE_NUMERIC = ["nan", "NaN", "-nan", "inf", "-inf", "infinity", "+inf", "1e999", "-1e999", "-0", "0", "1e-400", "+5", ".5", "5.", "1", "2", "10", "2.0", "1e1",
+                "  3", "4  ", "", "-0.0", "1e308", "1.7976931348623157e308", "4.9e-324", "0.1", "00", "007"]
+
+
+def _rules_file(r, suffix, script):
+    o, c = {"py": ("# ", ""), "js": ("// ", ""), "md": ("<!-- ", " -->")}[suffix]
+    out = []
+    for bi in range(r.randint(1, 5)):
+        attrs = []
+        for nm in r.sample(sorted(RULE_VALUES), r.randint(1, 4)):
+            attrs.append((nm, r.choice(RULE_VALUES[nm])))
+        if r.random() < 0.2:
+            attrs.append(("check-lua", r.choice([script, "missing.lua", ""])))
+        names = [k for k, _ in attrs]
+        numeric = False
+        if "keep-sorted-format" in names or r.random() < 0.15:
+            # a well-formed numeric block: the odd values are then *compared* instead of being refused
+            attrs = [(k, v) for k, v in attrs if not k.startswith("keep-sorted")] + [("keep-sorted", r.choice(["asc", "desc", ""])),
+                                                                                  ("keep-sorted-format", "numeric")]
+            numeric = r.random() < 0.8
+        body = " ".join(k if v is None else '%s="%s"' % (k, v) for k, v in attrs)
+        if suffix == "md":
+            out.append("")
+        out.append("%s<block %s>%s" % (o, body, c))
+        if suffix == "md":
+            out.append("")
+        for _ in range(r.choice([0, 1, 2, 2, 3, 6])):
+            out.append(r.choice(RULE_NUMERIC if numeric else RULE_LINES))
+            if suffix == "md":
+                out.append("")
+        out.append("%s</block>%s" % (o, c))
+    return "\n".join(out) + "\n"
+
+
 def _git_diff(r, name, a, b):
     """A diff produced by git between two versions of one file (None if git finds none)."""
     root = run.make_repo({}, real_git=True)
@@ -289,11 +348,38 @@ def run_job(job, ctx):
             b = r.choice([soup.mutate(r, a or r.choice(seeds)), soup.soup(r, lang).encode("utf-8")])
             if r.random() < 0.3:
                 b = a + b
-            diff = _git_diff(r, name, a, b)
+            # unusual but legal file names: git quotes the path (C-style escapes, octal for bytes >= 0x80)
+            nm = name
+            if i % 4 == 1:
+                ext = name.rsplit("/", 1)[-1].split(".", 1)[1] if "." in name else name
+                nm = r.choice(["d\u00e9j\u00e0 vu.%s" % ext, "sp ace/q\"uote.%s" % ext, "tab\there.%s" % ext, b"caf\xe9/latin1-\xff." + ext.encode(),
+                               "\u65e5\u672c/\U0001F600.%s" % ext, "back\\slash.%s" % ext])
+            diff = _git_diff(r, nm, a, b)
             if not diff:
                 continue
-            res = execute(ctx, flavour, suffix, b, "diff", diff=diff)
-            out.append(judge(ctx, flavour, suffix, b, "diff", res, dict(job, i=i), diff=diff))
+            res = execute(ctx, flavour, suffix, b, "diff", diff=diff, name=nm)
+            c = judge(ctx, flavour, suffix, b, "diff", res, dict(job, i=i, name=repr(nm)), diff=diff)
+            if nm is not name:
+                c.sets["diff_path"] = ["quoted-non-utf8" if isinstance(nm, bytes) else "quoted" if b'"' in diff.split(b"\n@@", 1)[0] else "plain"]
+            out.append(c)
+    elif k == "rules":
+        script = lua_script("nil.lua")
+        for i in range(off, off + job["n"]):
+            r = rng("c04r", job["seed"], suffix, job["part"], i)
+            data = _rules_file(r, suffix, script).encode("utf-8")
+            mode = "diff" if i % 3 == 0 else "scan"
+            diff = None
+            name = langs.file_name_for(suffix, "s")
+            if mode == "diff":
+                body = data.decode("utf-8").split("\n")
+                if body and body[-1] == "":
+                    body.pop()
+                diff = ("diff --git a/%s b/%s\nnew file mode 100644\n--- /dev/null\n+++ b/%s\n@@ -0,0 +1,%d @@\n%s" % (
+                    name, name, name, len(body), "".join("+" + l + "\n" for l in body))).encode("utf-8")
+            res = execute(ctx, flavour, suffix, data, mode, diff=diff)
+            c = judge(ctx, flavour, suffix, data, mode, res, dict(job, i=i), diff=diff)
+            c.counters["rules_files"] = 1
+            out.append(c)
     elif k == "valgrind":
         out += _valgrind(job, ctx)
     elif k == "libfuzzer":
